@@ -163,8 +163,8 @@ func (g *registrar) exec(res *regResult) {
 			cancel()
 			mr.sim.Count(cRegFail)
 		case strings.HasPrefix(op.Fail, "refl:"):
-			j, _ := strconv.Atoi(op.Fail[5:])
-			b.refl.setFailAfter(j)
+			j, _ := strconv.Atoi(reflJ(op.Fail))
+			b.refl.setFail(j, strings.HasSuffix(op.Fail, "c")) // "refl:<j>c": the stream ends early with status OK
 			defer b.refl.setFailAfter(-1)
 			mr.sim.Count(cRegFail)
 		}
